@@ -55,18 +55,22 @@ def project_of(c, idx):
                      "w": [0.75, 0.5][k % 2], "h": [1.25, 1.0][(idx + i) % 2], "setback": [0, 0.2, 0.05][(idx + i + k) % 3]}
                 # shading devices (on edges of rational length): an overhang at 90, 53.13 or 36.87 degrees, side fins
                 if math.isclose(ln, round(ln)) and (idx + i + k) % 2 == 0:
-                    winmm = {"x": round(v["x"] * 1000), "y": round(v["y"] * 1000), "w": round(v["w"] * 1000), "h": round(v["h"] * 1000)}
+                    u50 = lambda m: int(round(m * 20))          # metres -> units of 50 mm
+                    winmm = {"x": u50(v["x"]), "y": u50(v["y"]), "w": u50(v["w"]), "h": u50(v["h"])}
                     ang = [[0, 1, 1], [3, 4, 5], [4, 3, 5]][(idx // 2 + i) % 3]
-                    o = {"a": [0.0, 0.1, 0.25][(idx + k) % 3], "b": [0.0, 0.15, 0.3][(idx // 3) % 3], "w": [1.0, 1.5][idx % 2], "d": [0.5, 0.8][(idx // 2) % 2], "angle": deg(ang)}
-                    v["overhang"] = o
-                    devs.append({"kind": "overhang", "name": v["name"] + "_overhang", "edge": i + 1, "win": winmm, "a": round(o["a"] * 1000), "b": round(o["b"] * 1000),
-                                 "w": round(o["w"] * 1000), "d": round(o["d"] * 1000), "h": 0, "ang": ang})
+                    # which devices a window has: overhang only, left fin only, right fin only, all three
+                    pat = ((idx + i + k) // 2) % 4
+                    if pat in (0, 3):
+                        o = {"a": [0.0, 0.1, 0.25][(idx + k) % 3], "b": [0.0, 0.15, 0.3][(idx // 3) % 3], "w": [1.0, 1.5][idx % 2], "d": [0.5, 0.8][(idx // 2) % 2], "angle": deg(ang)}
+                        v["overhang"] = o
+                        devs.append({"kind": "overhang", "name": v["name"] + "_overhang", "edge": i + 1, "win": winmm, "a": u50(o["a"]), "b": u50(o["b"]),
+                                     "w": u50(o["w"]), "d": u50(o["d"]), "h": 0, "ang": ang})
                     for key, kind in (("lfin", "lfin"), ("rfin", "rfin")):
-                        if (idx + i + (key == "rfin")) % 3 != 0:
+                        if pat == 3 or (pat == 1 and key == "lfin") or (pat == 2 and key == "rfin"):
                             f = {"a": [0.0, 0.2][(idx + (key == "rfin")) % 2], "b": [0.0, 0.1, -0.2][(idx // 2) % 3], "h": [1.5, 1.0][(idx // 3) % 2], "d": [0.3, 0.6][(idx + i) % 2]}
                             v[key] = f
                             devs.append({"kind": kind, "name": v["name"] + ("_left_fin" if key == "lfin" else "_right_fin"), "edge": i + 1, "win": winmm,
-                                         "a": round(f["a"] * 1000), "b": round(f["b"] * 1000), "h": round(f["h"] * 1000), "d": round(f["d"] * 1000), "w": 0, "ang": [0, 1, 1]})
+                                         "a": u50(f["a"]), "b": u50(f["b"]), "h": u50(f["h"]), "d": u50(f["d"]), "w": 0, "ang": [0, 1, 1]})
                 w["windows"].append(v)
                 wins.append({"name": v["name"], "x": round(v["x"] * 1000), "y": round(v["y"] * 1000), "w": round(v["w"] * 1000), "h": round(v["h"] * 1000),
                              "sb": round(v["setback"] * 1000), "wall": w["name"]})
